@@ -11,7 +11,7 @@ Init == l = 1 /\ bad = <<>>
 IsInt(x) == x \in Int
 IsByteSeq(s) == DOMAIN s = 1..Len(s) /\ \A i \in 1..Len(s) : s[i] \in 0..255
 HintShape(x) == /\ {"k", "t", "i", "s", "sn", "a", "b"} \subseteq DOMAIN x
-                /\ x.k \in HintKeys /\ x.t \in 0..5 /\ IsInt(x.i) /\ IsInt(x.a) /\ IsInt(x.b) /\ IsByteSeq(x.s)
+                /\ x.k \in HintKeys /\ x.t \in (0..5) \cup {7} /\ IsInt(x.i) /\ IsInt(x.a) /\ IsInt(x.b) /\ IsByteSeq(x.s)
 WellFormed(e) ==
   /\ {"wr", "fmt", "cp", "cn", "w", "h", "hints", "sok", "sw", "sh", "mat", "err", "panic", "hang", "ow", "oh"} \subseteq DOMAIN e
   /\ e.wr \in WriterSet /\ IsInt(e.fmt) /\ IsInt(e.w) /\ IsInt(e.h)
